@@ -60,3 +60,7 @@ package cache
 //@   trusted
 //@   opt interior_ok
 //@   modifies nothing
+
+//@ func (*RepoCache).LocalConfig
+//@   trusted
+//@   modifies nothing
